@@ -232,6 +232,11 @@ fn main() {
             for e in c["exp"].as_array().unwrap() {
                 let lk = e["lk"].as_u64().unwrap();
                 let out = &e["out"];
+                if out["why"].as_str() == Some("unspecified") {
+                    // two deltas with the same address whose relative order changes the result: not documented
+                    rep.class("rules_unspecified_order");
+                    continue;
+                }
                 let exp = if out["ok"].as_bool().unwrap() {
                     any_ok = true;
                     let set: BTreeMap<String, u64> = out["set"].as_object().map(|o| o.iter().map(|(k, v)| (k.clone(), from_limbs(v).unwrap())).collect()).unwrap_or_default();
